@@ -29,11 +29,16 @@ func (c *Ctx) gobDecode(e *ast.CallExpr, rt types.Type) Value {
 			T := c.typeOf(u.X)
 			nv := x.freshValue("decoded", T)
 			x.assign(c, u.X, nv)
-			// the at-call clauses see a pointer to (a copy of) the variable
+			// the at-call clauses and decoded(T) see a pointer to an object holding the very value the variable now has
 			var args []Value
-			if x.isBoxed(T) {
+			switch {
+			case x.isBoxed(T):
 				args = []Value{c.allocBox(T, nv, c.typeOf(a))}
-			} else {
+			case nv.Kind == KStruct:
+				ref := c.alloc(nv, c.typeOf(a))
+				c.st.store[decodedKey] = Scalar(ref.S, nil)
+				args = []Value{ref}
+			default:
 				args = []Value{Scalar(Fresh("addr", SRef), c.typeOf(a))}
 			}
 			c.atCall(e, args)
